@@ -448,5 +448,5 @@ META = {
     "mtime granularity and marshal's behaviour on decodable garbage are not decided.",
     "note": "Decides the listed structural clauses, not the behaviour. Trusted: marshal.load raises on a truncated "
     "stream; os.stat mtime semantics. Known findings (key misses context/mode) are listed in known_findings.json.",
-    "more": "Also decided: a cache entry is stored before the compiled code runs (its time stamp is compared with the source's). The entry writer starts from an empty file (truncating open / O_TRUNC / temp + replace).",
+    "more": "Also decided: a cache entry is stored before the compiled code runs (its time stamp is compared with the source's). The entry writer starts from an empty file (truncating open / O_TRUNC / temp + replace). The code text is hashed through a fixed injective encoding (UTF-8/16/32, strict or surrogatepass): no codec or error handler read from run-time configuration.",
 }
